@@ -1,3 +1,4 @@
+import RtcModel.Generated.Consts
 /-
 C19 (first half) — model of the inbound RTP demultiplexer of `RtpTransport`
 (`src/transports/rtp.rs`): `ListenerRegistry` (by-SSRC / by-RID / by-MID maps, payload-type /
@@ -14,6 +15,7 @@ A full listener channel (`TrySendError::Full`: the packet is dropped, nothing el
 modelled; the harness drains the channels after every packet.
 -/
 namespace RtcModel.Demux
+open RtcModel.Generated
 
 abbrev Lid := Nat
 abbrev Bytes := List UInt8
@@ -57,10 +59,13 @@ structure Reg where
   closed : List Lid
   ridExt : Nat           -- `rid_extension_id` (0 = none)
   midExt : Nat           -- `sdes_mid_extension_id` (0 = none)
+  /-- `ssrc_sweep_at`: size of `by_ssrc` at which the next packet-learnt binding sweeps closed senders
+  (`Default` = 0, so the very first packet-learnt binding sweeps) -/
+  sweepAt : Nat := 0
 deriving DecidableEq, Repr
 
 def Reg.empty : Reg :=
-  { bySsrc := [], byRid := [], byMid := [], routes := [], closed := [], ridExt := 0, midExt := 0 }
+  { bySsrc := [], byRid := [], byMid := [], routes := [], closed := [], ridExt := 0, midExt := 0, sweepAt := 0 }
 
 def Reg.isClosed (r : Reg) (l : Lid) : Bool := r.closed.contains l
 
@@ -84,9 +89,24 @@ def pushNew (acc : List Nat) : List Nat → List Nat
   | [] => acc
   | p :: ps => pushNew (if acc.contains p then acc else acc ++ [p]) ps
 
-/-- `bind_ssrc_route` (= `register_listener_sync`) -/
+/-- the threshold set after a sweep: `(by_ssrc.len() * 2).max(16)` -/
+def sweepTarget (factor minimum len : Nat) : Nat := max (len * factor) minimum
+
+/-- `bind_ssrc_route` (= `register_listener_sync`, explicit registration): closed senders are dropped
+first, always; the threshold is re-armed -/
 def bindSsrc (r : Reg) (ssrc : Nat) (l : Lid) : Reg :=
-  { r with bySsrc := insert ssrc l (retainOpen r.closed r.bySsrc) }
+  { r with bySsrc := insert ssrc l (retainOpen r.closed r.bySsrc),
+           sweepAt := sweepTarget demuxSsrcSweepFactor demuxSsrcSweepMinExplicit (retainOpen r.closed r.bySsrc).length }
+
+/-- `bind_ssrc_from_packet` (binding learnt from a routed packet): closed senders are swept only when the
+table has reached the threshold (it has doubled since the last sweep) — amortised, since the `fix:`
+commit "RTP demux sweeps closed SSRC bindings when the table has doubled …"; before it every such
+binding swept -/
+def bindFromPacket (r : Reg) (ssrc : Nat) (l : Lid) : Reg :=
+  if r.bySsrc.length ≥ r.sweepAt then
+    { r with bySsrc := insert ssrc l (retainOpen r.closed r.bySsrc),
+             sweepAt := sweepTarget demuxSsrcSweepFactor demuxSsrcSweepMin (retainOpen r.closed r.bySsrc).length }
+  else { r with bySsrc := insert ssrc l r.bySsrc }
 
 def regRid (r : Reg) (rid : Bytes) (l : Lid) : Reg :=
   { r with byRid := insert rid l (retainOpen r.closed r.byRid) }
@@ -275,9 +295,9 @@ inductive Outcome where
   | closedOut (l : Lid) (v : Via) -- `l` selected but its channel is closed: listener removed
 deriving DecidableEq, Repr
 
-/-- `if let Some(tx) = selected && bind_ssrc { bind_ssrc_route(ssrc, tx) }` -/
+/-- `if let Some(tx) = selected && bind_ssrc { bind_ssrc_from_packet(ssrc, tx) }` -/
 def afterSelect (r : Reg) (ssrc : Nat) (l : Lid) (bind : Bool) : Reg :=
-  if bind then bindSsrc r ssrc l else r
+  if bind then bindFromPacket r ssrc l else r
 
 /-- `try_send_dropping`: `Ok` → delivered; `Closed` → `by_ssrc.remove(&ssrc); remove_sender(&tx)` -/
 def deliver (r1 : Reg) (ssrc : Nat) (l : Lid) (v : Via) : Reg × Outcome :=
